@@ -29,7 +29,6 @@ structure Live where
   nextP : Nat
   guard : Option TCell := none
   wpos : Nat
-  rfused : Bool
   wfused : Bool
 
 structure State where
@@ -43,7 +42,7 @@ def connect (F W : Nat) : Live :=
   let P := realParams F W
   { P := P, ws := newWriteSock P (tw P), wscript := [], rs := newReadSock P (tw P),
     rc := { str := #[], cpos := 0, script := [], closed := false },
-    segs := #[], hdr := [], bodyNeed := 0, nextP := 0, wpos := 0, rfused := false, wfused := false }
+    segs := #[], hdr := [], bodyNeed := 0, nextP := 0, wpos := 0, wfused := false }
 
 def xorCell (c : TCell) (mask : Nat) : TCell :=
   match c with
@@ -190,7 +189,6 @@ def stepLive (l : Live) (ts : List String) : Live × String :=
     | none => (l, "bad-op")
     | some k =>
       if k > 4194304 then (l, "bad-op")
-      else if l.rfused then (l, "fused")
       else
         let rs := l.rs
         let rc := l.rc
@@ -200,7 +198,7 @@ def stepLive (l : Live) (ts : List String) : Live × String :=
         match o with
         | .ok n pos => (l, "ok " ++ toString n ++ " @" ++ toString pos)
         | .pending => (l, "pending")
-        | .err e => ({ l with rfused := true }, "err " ++ showRErr e)
+        | .err e => (l, "err " ++ showRErr e)
         | .panic m => (l, "panic " ++ m)
         | .diverged => (l, "diverged")
   | ["carrier", "deliver", k] =>
